@@ -151,6 +151,18 @@ def check_C05(ctx):
             c = {"op": "run", "env": {}, "version": None, "root": root, "argv": argv}
             cases.append(c)
             meta[id(c)] = (d, hooks)
+    # panic values of a type that is not comparable (slices), the same and different ones, at every pair of callbacks
+    nc_kinds = [None, {"k": "ret"}, {"k": "panic", "v": 5, "nc": True}, {"k": "panic", "v": 6, "nc": True}, {"k": "panic", "v": 5}]
+    for d in (1, 2):
+        for combo in itertools.product(range(len(nc_kinds)), repeat=2 * d + 1):
+            hooks = [nc_kinds[i_] for i_ in combo]
+            if hooks[d] is None or sum(1 for h in hooks if h and h.get("nc")) < 2:
+                continue
+            root, argv = gen.chain_tree(d, hooks)
+            root["policy"] = 0
+            c = {"op": "run", "env": {}, "version": None, "root": root, "argv": argv}
+            cases.append(c)
+            meta[id(c)] = (d, hooks)
     nex = len(cases)
     # random deeper paths, with values 0..255 for exits and every policy
     for k_ in range(ctx.scale(1500, 20000)):
